@@ -2,9 +2,17 @@
 """Prints the prompt for a fresh mutation-seeding sub-agent: tools/seed_prompt.py Cxx  (also creates the worktree)."""
 import json, subprocess, sys, os
 pid = sys.argv[1]
+round_tag = sys.argv[2] if len(sys.argv) > 2 else ""
 props = {json.loads(l)["id"]: json.loads(l) for l in open("/verif/properties.jsonl")}
 p = props[pid]
-wt = f"/tmp/seed/{pid}"
+wt = f"/tmp/seed/{pid}{round_tag}"
+previous = ""
+if round_tag:
+    try:
+        m = json.load(open(f"/verif/seeded/{pid}-a/meta.json"))
+        previous = ("\nNOTE: another contributor has already submitted a change for this property that manifests like this: \"" + m.get("needs_to_manifest", "") + "\". Yours must work through a DIFFERENT mechanism, a different code path and a different kind of triggering input/sequence (ideally breaking a different clause of the statement).\n")
+    except Exception:
+        pass
 if not os.path.exists(wt):
     subprocess.run(["git", "-C", "/repo", "worktree", "add", "--detach", wt, "HEAD"], check=True, capture_output=True)
 anchors = ", ".join(p["anchors"]["files"])
@@ -17,6 +25,7 @@ Here is a semantic property that the library is supposed to satisfy:
   Scope: {p['quantifier']['text']}
   Code most relevant to it: {anchors}
 
+{previous}
 YOUR TASK: write ONE realistic change (a plausible bug: a refactoring slip, an off-by-one, a wrong condition, a dropped case, a "simplification" or "optimisation" that is subtly wrong, two cooperating edits that each look fine alone ...) to the library source under {wt}/quil-rs/src that BREAKS this property, while
   (1) the workspace still compiles, and
   (2) the ENTIRE existing test suite still passes, unedited:  cd {wt} && cargo nextest run --workspace --no-fail-fast --offline --test-threads 8 2>&1 | tail -15   (2981 tests; takes a few minutes the first time), and
